@@ -275,6 +275,9 @@ func (g *gen) stmt() {
 		g.feat("defer-closure")
 		g.emit("defer func() {")
 		g.indent++
+		if e := g.enterCall(); e != "" {
+			g.emit("%s", strings.TrimSuffix(e, "; "))
+		}
 		g.inDefer = true
 		g.closureDepth++
 		g.block(1 + g.intn(3, "defern"))
@@ -683,6 +686,9 @@ func (g *gen) closureStmt() {
 	case 0: // func(string) string with body
 		g.emit("%s := func(x string) string {", f)
 		g.indent++
+		if e := g.enterCall(); e != "" {
+			g.emit("%s", strings.TrimSuffix(e, "; "))
+		}
 		saved := len(g.scope)
 		g.declare("x", TStr)
 		g.closureDepth++
@@ -701,6 +707,9 @@ func (g *gen) closureStmt() {
 	case 1: // func() mutating captured variables, called later (maybe)
 		g.emit("%s := func() {", f)
 		g.indent++
+		if e := g.enterCall(); e != "" {
+			g.emit("%s", strings.TrimSuffix(e, "; "))
+		}
 		g.closureDepth++
 		g.block(1 + g.intn(3, "cln"))
 		g.closureDepth--
@@ -717,7 +726,7 @@ func (g *gen) closureStmt() {
 	default: // closure returning a closure (nested capture)
 		if v, ok := g.pickVar(TStr, "nestcap"); ok {
 			g.emit("%s := func(y string) func(string) string {", f)
-			g.emit("\treturn func(x string) string { return x + y + %s }", v.name)
+			g.emit("\t%sreturn func(x string) string { %sreturn x + y + %s }", g.enterCall(), g.enterCall(), v.name)
 			g.emit("}")
 			h := g.newVar(TFunc, f+"("+g.expr(TStr, 1)+")")
 			_ = h
